@@ -115,6 +115,8 @@ def loops_of_scope(F, scope):
     for p in sorted(scope):
         b = F.bodies[p]
         for head, blocks in sorted(b.loops().items()):
+            if all(b.term(x)["k"] == "assert" and b.term(x).get("ak") == "resumed" for x in blocks):
+                continue      # `assert(false, "async fn resumed after completion") -> self`: a panic stub of the coroutine lowering, not a loop
             kind, detail = loop_witness(F, b, head, blocks)
             out.append((b, head, blocks, kind, detail))
     return out
